@@ -8,6 +8,10 @@
     Executable definitions only: proofs live in Proofs.v, property theorems in Props.v. *)
 From Coq Require Import NArith ZArith List Bool.
 Import ListNotations.
+(* the tables and constants of the CURRENT build (regenerated on every run by tools/props/c10.py regen):
+   dna_code_tab (sDnaCode), cdna_tab / cdna_other (LX_BIO_CDNA_ALPHA), iupac_tab (obialign._iupac),
+   max_pat_len, max_pat_err, PATMASK, OBLIBIT, alpha_len, patword_bits *)
+From OBI.C10.Gen Require Export Tables.
 
 Definition sym : Type := (N * bool)%type.       (* symbol set, obligatory *)
 Definition pattern : Type := list sym.
@@ -166,7 +170,7 @@ Definition manber_indel (pat : pattern) (k : nat) (data : list N) (pos : Z) : li
   indel_scan pat data pos (indel_init (smask pat) (smask pat) (S k)).
 
 (** ---------------- ManberAll + ApatPattern.FindAllIndex ---------------- *)
-Definition MAX_PAT_LEN : Z := 64.
+Definition MAX_PAT_LEN : Z := Z.of_N max_pat_len.           (* apat.h, regenerated: Gen/Tables.v *)
 (* the text positions scanned: [begin, min(begin + length + MAX_PAT_LEN, seqlen)) *)
 Definition win_begin (begin : Z) : Z := if (begin <? 0)%Z then 0%Z else begin.
 Definition win_end (seqlen begin length : Z) : Z :=
@@ -223,8 +227,7 @@ Definition best_match_noindel (res : list triple) (seqlen : Z) : Z * Z * Z * boo
   end.
 
 (** ---------------- obialign.LocatePattern (as repaired by the fix: commits) ---------------- *)
-(* bytes are [N]; obialign._iupac and _samenuc *)
-Definition iupac_tab : list N := [1;14;2;13;0;0;4;11;0;0;12;0;3;15;0;0;0;5;6;8;8;7;9;0;10;0]%N.
+(* bytes are [N]; obialign._samenuc over the regenerated obialign._iupac ([iupac_tab], Gen/Tables.v) *)
 Definition lower (a : N) : N := if (65 <=? a)%N && (a <=? 90)%N then N.lor a 32 else a.
 Definition samenuc (a b : N) : bool :=
   let a := lower a in let b := lower b in
@@ -348,12 +351,7 @@ Definition comp_base (c : N) : N :=
 Definition revcomp_text (t : list N) : list N := rev (map comp_base t).
 
 (** ---------------- apat_parse.c: CheckPattern, EncodePattern (on the bytes of the pattern string) ---------- *)
-(* sDnaCode, letters A..Z *)
-Definition dna_code_tab : list N :=
-  [0x00000001; 0x00080044; 0x00000004; 0x00080041; 0; 0; 0x00000040; 0x00080005; 0; 0; 0x00080040; 0;
-   0x00000005; 0x00080045; 0; 0; 0; 0x00000041; 0x00000044; 0x00080000; 0x00080000; 0x00000045;
-   0x00080001; 0x00080045; 0x00080004; 0]%N.
-Definition PATMASK : N := 0x3ffffff%N.
+(* sDnaCode, letters A..Z: [dna_code_tab]; PATMASK: regenerated (Gen/Tables.v) *)
 Definition is_upper (c : N) : bool := (65 <=? c)%N && (c <=? 90)%N.
 Definition is_lower (c : N) : bool := (97 <=? c)%N && (c <=? 122)%N.
 Definition to_upper (c : N) : N := if is_lower c then (c - 32)%N else c.
@@ -413,9 +411,12 @@ Fixpoint one_position (fuel : nat) (s : list N) (neg : bool) : option (sym * lis
             | None => None
             | Some (v, r') =>
                 let v := if neg then N.land (N.lxor v PATMASK) PATMASK else v in
+                (* obliBitPattern looks at the last character of the position: a '#' standing for the letter itself
+                   (accepted by CheckPattern after a '#' or a '!': "A##", "A!#") also makes the position obligatory *)
+                let ob0 := (c =? ch_hash)%N in
                 match r' with
-                | h :: r'' => if (h =? ch_hash)%N then Some ((v, true), r'') else Some ((v, false), r')
-                | [] => Some ((v, false), [])
+                | h :: r'' => if (h =? ch_hash)%N then Some ((v, true), r'') else Some ((v, ob0), r')
+                | [] => Some ((v, ob0), [])
                 end
             end
       end
@@ -442,11 +443,20 @@ Definition parse_pattern (str : list N) : option pattern :=
     end
   else None.
 
+(* MakeApatPattern (as repaired): buildPattern, then patterns of MAX_PAT_LEN positions or more are refused ("pattern too long"):
+   the state word has room for patlen + 1 bits *)
+Definition make_pattern (str : list N) : option pattern :=
+  match parse_pattern str with
+  | Some p => if (MAX_PAT_LEN <=? Z.of_nat (List.length p))%Z then None else Some p
+  | None => None
+  end.
+
 (** ---------------- ecoComplementPattern on the pattern string (as repaired) ---------------- *)
-(* LX_BIO_CDNA_ALPHA, letters A..Z: "TVGHEFCDIJMLKNOPQYSAABWXRZ" *)
-Definition cdna_tab : list N :=
-  [84; 86; 71; 72; 69; 70; 67; 68; 73; 74; 77; 76; 75; 78; 79; 80; 81; 89; 83; 65; 65; 66; 87; 88; 82; 90]%N.
-Definition comp_letter (c : N) : N := if is_upper c then nth (N.to_nat (c - 65)) cdna_tab c else c.
+(* LX_BIO_CDNA_ALPHA, letters A..Z ("TVGHEFCDIJMLKNOPQYSAABWXRZ" when this was written): [cdna_tab]; any other byte
+   that LXBioBaseComplement changes is listed in [cdna_other] (none when this was written) - both regenerated *)
+Definition comp_letter (c : N) : N :=
+  if is_upper c then nth (N.to_nat (c - 65)) cdna_tab c
+  else match find (fun p => (fst p =? c)%N) cdna_other with Some p => snd p | None => c end.
 Fixpoint tok_bangs (s : list N) : list N * list N :=
   match s with
   | c :: r => if (c =? ch_bang)%N then let (a, b) := tok_bangs r in (c :: a, b) else ([], s)
@@ -482,6 +492,37 @@ Definition comp_string (s : list N) : list N :=
 Definition comp_table_ok : bool :=
   forallb (fun i => let c := (65 + N.of_nat i)%N in (dna_code (comp_letter c) =? comp_set (dna_code c))%N) (seq 0 26).
 
+(** ---------------- IUPAC nomenclature: specification of the two regenerated letter tables ---------------- *)
+(* the bases (text letter codes a = 0, c = 2, g = 6, t = 19) each pattern letter A..Z stands for (NC-IUB 1984;
+   U = T, X = N as in apat's DNA alphabet; the other letters stand for nothing) *)
+Definition iupac_bases : list (list N) :=
+  [[0]; [2;6;19]; [2]; [0;6;19]; []; []; [6]; [0;2;19]; []; []; [6;19]; []; [0;2]; [0;2;6;19]; []; []; []; [0;6]; [2;6];
+   [19]; [19]; [0;2;6]; [0;19]; [0;2;6;19]; [2;19]; []]%N.
+Definition bases_of (L : N) : list N := if is_upper L then nth (N.to_nat (L - 65)) iupac_bases [] else [].
+Definition set_of (f : N -> N) (l : list N) : N := fold_right (fun b acc => N.lor (N.shiftl 1 (f b)) acc) 0%N l.
+(* bit of a base in obialign._iupac: a = 0, c = 1, g = 2, t = 3 *)
+Definition base_bit (b : N) : N := if (b =? 0)%N then 0%N else if (b =? 2)%N then 1%N else if (b =? 6)%N then 2%N else 3%N.
+Definition letters26 : list N := map (fun i => (65 + N.of_nat i)%N) (seq 0 26).
+(* sDnaCode: the symbol set of every letter is exactly its IUPAC base set *)
+Definition dna_code_letter_ok (L : N) : bool := (dna_code L =? set_of (fun b => b) (bases_of L))%N.
+(* obialign._iupac: the 4-bit code of every letter but x is exactly its IUPAC base set (x: code 0, observation) *)
+Definition letter_X : N := 88%N.
+Definition iupac_letter_ok (L : N) : bool :=
+  (L =? letter_X)%N || (nth (N.to_nat (L - 65)) iupac_tab 0 =? set_of base_bit (bases_of L))%N.
+(* the letters on which LocatePattern's comparison and the automaton's symbol sets are the same relation *)
+Definition plain_letter (L : N) : bool := is_upper L && negb (L =? letter_X)%N.
+Definition plain_codes : list N := [0; 2; 6; 19]%N.
+Definition plain_text (t : list N) : bool := forallb (fun c => existsb (N.eqb c) plain_codes) t.
+Definition plain_pat (cs : list N) : pattern := map (fun L => (dna_code L, false)) cs.
+Definition text_bytes (t : list N) : list N := map (fun x => (x + 97)%N) t.
+Definition samenuc_agree_letter (L : N) : bool :=
+  forallb (fun c => Bool.eqb (samenuc L (c + 97)) (N.testbit (dna_code L) c)) plain_codes.
+(* constants: the documented maximum pattern length is the width of the state word (so 1 << patlen leaves the word for
+   patlen = MAX_PAT_LEN), budgets stay below the "no best match yet" marker of FilterBestMatch / BestMatch, 26 letters *)
+Definition constants_ok : bool :=
+  (max_pat_len =? patword_bits)%N && (patword_bits =? 64)%N && (max_pat_err <? 10000)%N && (alpha_len =? 26)%N &&
+  (PATMASK =? N.ones 26)%N && (OBLIBIT =? N.shiftl 1 26)%N.
+
 Definition triple_eqb (a b : triple) : bool :=
   let '(a0, a1, a2) := a in let '(b0, b1, b2) := b in (a0 =? b0)%Z && (a1 =? b1)%Z && (a2 =? b2)%Z.
 Fixpoint list_eqb {A} (eqb : A -> A -> bool) (l1 l2 : list A) : bool :=
@@ -492,14 +533,7 @@ Fixpoint list_eqb {A} (eqb : A -> A -> bool) (l1 l2 : list A) : bool :=
   end.
 Definition sym_eqb (a b : sym) : bool := (fst a =? fst b)%N && Bool.eqb (snd a) (snd b).
 
-(* finite scope of the bounded theorem C10_comp_string_upto_6: every string of at most 6 characters over
-   A G R N [ ] ! #  in which '#' follows a letter or a ']' *)
-Definition scope_alpha : list N := [65; 71; 82; 78; 91; 93; 33; 35]%N.
-Fixpoint strings_upto (n : nat) : list (list N) :=
-  match n with
-  | O => [[]]
-  | S n' => [] :: flat_map (fun s => map (fun c => c :: s) scope_alpha) (strings_upto n')
-  end.
+(* the documented grammar: every '#' directly follows a letter or a class ("A##", "A!#" pass CheckPattern too) *)
 Fixpoint hash_after_position (prev : N) (s : list N) : bool :=
   match s with
   | [] => true
@@ -520,11 +554,15 @@ Definition comp_string_ok (s : list N) : bool :=
 
 (** ---------------- correspondence ---------------- *)
 (** a correspondence case: inputs and what the implementation answered.
-    [cstr]: the bytes of the pattern string given to MakeApatPattern; [opatlen]: ApatPattern.Len();
+    [cstr]: the bytes of the pattern string given to MakeApatPattern; [cseq]: the bytes of the sequence (the automaton
+    reads them through EncodeSequence, LocatePattern reads them as they are); [opatlen]: ApatPattern.Len();
     [oapis]: FilterBestMatch, AllMatches and BestMatch observed; [ocpat]: the bytes of the string of the
     complemented pattern (ApatPattern.ReverseComplement().String()) *)
+(* obiapat.c EncodeSequence: a lower-case letter becomes its rank, ANY other byte becomes 0 (the code of 'a') *)
+Definition encode_sequence (bytes : list N) : list N := map (fun b => if is_lower b then (b - 97)%N else 0%N) bytes.
+
 Record ccase := mkc {
-  cstr : list N; ck : nat; cindel : bool; ctext : list N; cbegin : Z; clength : Z;
+  cstr : list N; ck : nat; cindel : bool; cseq : list N (* the bytes held by the BioSequence *); cbegin : Z; clength : Z;
   opatlen : Z;
   ofind : list triple;
   oapis : option (list triple * list triple * (Z * Z * Z * bool));
@@ -539,14 +577,14 @@ Definition best_eqb (a b : Z * Z * Z * bool) : bool :=
   Bool.eqb mt mt' && (if mt then (s =? s')%Z && (e =? e')%Z && (n =? n')%Z else true).
 
 Definition case_ok (c : ccase) : bool :=
-  match parse_pattern (cstr c) with
+  match make_pattern (cstr c) with
   | None => false
   | Some pat =>
   (Z.of_nat (List.length pat) =? opatlen c)%Z &&
-  match find_all_index pat (ck c) (cindel c) (ctext c) (cbegin c) (clength c) with
+  match find_all_index pat (ck c) (cindel c) (encode_sequence (cseq c)) (cbegin c) (clength c) with
   | Unmodelled => false
   | Ok l =>
-      let sq := map (fun x => (x + 97)%N) (ctext c) in
+      let sq := cseq c in
       let m := Z.of_nat (List.length pat) in
       let cpatb := firstn (List.length pat) (map to_upper (cstr c)) in     (* cpat[0:patlen] *)
       list_eqb triple_eqb l (ofind c) &&
@@ -573,7 +611,7 @@ Definition case_ok (c : ccase) : bool :=
 Definition anycase_ok (c : anycase) : bool :=
   match c with
   | CMatch c => case_ok c
-  | CPatErr str => match parse_pattern str with None => true | Some _ => false end
+  | CPatErr str => match make_pattern str with None => true | Some _ => false end
   | CLocate pat sq o => match locate pat sq with Some r => triple_eqb r o | None => false end
   end.
 
